@@ -1,5 +1,5 @@
 (* Correspondence evaluators for the types / hash / validators (C06, C16, C17, C18). *)
-From EB Require Export Corr.Common Types.MutationCodec Types.PredicateCodec Types.Postcard Hash.Addr Hash.Sha256 Check.Validate.
+From EB Require Export Corr.Common Types.MutationCodec Types.PredicateCodec Types.Postcard Hash.Addr Hash.Sha256 Check.Validate Types.Hex Types.Serde.
 Open Scope list_scope.
 Open Scope Z_scope.
 
@@ -44,7 +44,30 @@ Inductive types_case :=
 | TAddrSet (sols : list solution) (addr : list Z) (from_addrs : list Z) (perm_addrs : list (list Z))
 | TCheckSet (sols : list solution) (ok : bool) (perm_oks : list bool)
 | TCheckPredicate (nodes edges : Z) (ok : bool)                         (* a predicate with that many nodes / edges *)
-| TCheckContract (sizes : list (Z * Z)) (ok : bool).                    (* one (nodes, edges) pair per predicate *)
+| TCheckContract (sizes : list (Z * Z)) (ok : bool)                     (* one (nodes, edges) pair per predicate *)
+| THexWords (ws : list Z) (hexs : list Z) (back : option (list Z)) (back_upper : option (list Z))   (* hex_str_from_words, words_from_hex_str *)
+| TDisplay (kind : Z) (bytes : list Z) (shown : list Z) (parsed : option (list Z)) (parsed_lower : option (list Z))
+                                                                        (* Display then FromStr; kind 32 = ContentAddress, 65 = Signature *)
+| TSerdeSolutionSet (sols : list solution) (tree : sval) (back_ok : bool) (legacy_ok : bool) (postcard_ok : bool).
+          (* serde_json::to_value; from_value(tree) == value; legacy field names accepted; postcard round trip *)
+
+Definition sol_eqb_full (a b : solution) : bool :=
+  zlist_eqb (sol_contract a) (sol_contract b) && zlist_eqb (sol_predicate a) (sol_predicate b)
+  && zzlist_eqb (sol_data a) (sol_data b) && list_eqb mut_eqb (sol_muts a) (sol_muts b).
+
+Fixpoint sval_eqb (a b : sval) : bool :=
+  match a, b with
+  | SNum x, SNum y => x =? y
+  | SStr x, SStr y => zlist_eqb x y
+  | SSeq x, SSeq y => (fix go (l1 l2 : list sval) : bool :=
+                         match l1, l2 with [], [] => true | u :: r1, v :: r2 => sval_eqb u v && go r1 r2 | _, _ => false end) x y
+  | SMap x, SMap y => (fix go (l1 l2 : list (string * sval)) : bool :=
+                         match l1, l2 with
+                         | [], [] => true
+                         | (k1, u) :: r1, (k2, v) :: r2 => String.eqb k1 k2 && sval_eqb u v && go r1 r2
+                         | _, _ => false end) x y
+  | _, _ => false
+  end.
 
 Definition optlist_eqb (a b : option (list Z)) : bool :=
   match a, b with Some x, Some y => zlist_eqb x y | None, None => true | _, _ => false end.
@@ -75,6 +98,12 @@ Definition types_mismatch (c : types_case) : bool :=
   | TCheckSet sols ok _ => negb (Bool.eqb (is_ok (check_set sols)) ok)
   | TCheckPredicate n e ok => negb (Bool.eqb (is_ok (check_predicate_limits (sized_pred n e))) ok)
   | TCheckContract sizes ok => negb (Bool.eqb (is_ok (check_contract (map (fun s => sized_pred (fst s) (snd s)) sizes))) ok)
+  | THexWords ws hexs back _ => negb (zlist_eqb (words_to_hex ws) hexs && option_eqb zlist_eqb (words_from_hex hexs) back)
+  | TDisplay kind bytes shown parsed _ =>
+      negb (zlist_eqb (display_addr bytes) shown && option_eqb zlist_eqb (parse_addr (Z.to_nat kind) shown) parsed)
+  | TSerdeSolutionSet sols tree _ _ _ =>
+      (* the model's deserialiser reads the implementation's tree back to the value (field order is irrelevant) *)
+      negb (match de_hr_solution_set tree with Some l => list_eqb sol_eqb_full l sols | None => false end)
   end.
 
 (* documented limits, literally *)
@@ -134,6 +163,10 @@ Definition types_spec_fail (c : types_case) : bool :=
   | TCheckPredicate n e ok => negb (Bool.eqb ok ((n <=? 1000) && (e <=? 1000)))
   | TCheckContract sizes ok =>
       negb (Bool.eqb ok ((zlen sizes <=? 100) && forallb (fun s => (fst s <=? 1000) && (snd s <=? 1000)) sizes))
+  | THexWords ws _ back back_upper => negb (option_eqb zlist_eqb back (Some ws) && option_eqb zlist_eqb back_upper (Some ws))
+  | TDisplay _ bytes _ parsed parsed_lower =>
+      negb (option_eqb zlist_eqb parsed (Some bytes) && option_eqb zlist_eqb parsed_lower (Some bytes))
+  | TSerdeSolutionSet _ _ back_ok legacy_ok postcard_ok => negb (back_ok && legacy_ok && postcard_ok)
   end.
 
 Definition types_mismatches := collect types_mismatch.
